@@ -3,7 +3,7 @@
 use std::collections::{HashMap, HashSet};
 use std::fs;
 use std::path::{Path, PathBuf};
-use std::sync::Arc;
+use std::sync::{Arc, Mutex};
 use tokio::sync::RwLock;
 
 use tower_lsp::jsonrpc::Result;
@@ -35,6 +35,10 @@ pub struct DocumentState {
 pub struct IncanLanguageServer {
     client: Client,
     documents: Arc<RwLock<HashMap<Url, DocumentState>>>,
+    /// Arrival order of text-synchronization notifications: a counter and, per document, the ticket of
+    /// the latest didOpen/didChange/didClose. A handler takes its ticket before its first `await`
+    /// (handlers are started in arrival order), so a stale ticket means a newer notification exists.
+    latest: Arc<Mutex<(u64, HashMap<Url, u64>)>>,
 }
 
 impl IncanLanguageServer {
@@ -42,7 +46,52 @@ impl IncanLanguageServer {
         Self {
             client,
             documents: Arc::new(RwLock::new(HashMap::new())),
+            latest: Arc::new(Mutex::new((0, HashMap::new()))),
         }
+    }
+
+    /// Register a notification for `uri` as the latest one and return its ticket. Must not be preceded by an `await`.
+    fn take_ticket(&self, uri: &Url) -> u64 {
+        let mut latest = self.latest.lock().unwrap_or_else(|e| e.into_inner());
+        latest.0 += 1;
+        let ticket = latest.0;
+        latest.1.insert(uri.clone(), ticket);
+        ticket
+    }
+
+    /// Is `ticket` still the latest one taken for `uri`?
+    fn is_latest(&self, uri: &Url, ticket: u64) -> bool {
+        let latest = self.latest.lock().unwrap_or_else(|e| e.into_inner());
+        latest.1.get(uri) == Some(&ticket)
+    }
+
+    /// Finish an analysis: store `state` (if the text produced one) and publish `diagnostics`, unless a newer
+    /// notification for `uri` has arrived in the meantime - that one owns the document now.
+    ///
+    /// The write guard is kept until the diagnostics are handed to the client (as `did_close` does), so
+    /// that stores and publications of concurrent handlers cannot interleave.
+    async fn finish_analysis(
+        &self,
+        uri: &Url,
+        version: i32,
+        ticket: u64,
+        state: Option<DocumentState>,
+        diagnostics: Vec<Diagnostic>,
+    ) {
+        #[cfg(incan_verif)]
+        crate::lsp::verif_gate::gate("store", uri, Some(version)).await;
+        let mut docs = self.documents.write().await;
+        if !self.is_latest(uri, ticket) {
+            return;
+        }
+        if let Some(state) = state {
+            docs.insert(uri.clone(), state);
+        }
+        #[cfg(incan_verif)]
+        crate::lsp::verif_gate::gate("publish", uri, Some(version)).await;
+        self.client
+            .publish_diagnostics(uri.clone(), diagnostics, Some(version))
+            .await;
     }
 
     /// Verification-only: the shared document map (stored text/version; lock state via `try_read`/`try_write`).
@@ -52,7 +101,7 @@ impl IncanLanguageServer {
     }
 
     /// Analyze a document and publish diagnostics
-    async fn analyze_document(&self, uri: &Url, source: &str, version: i32) {
+    async fn analyze_document(&self, uri: &Url, source: &str, version: i32, ticket: u64) {
         let mut diagnostics = Vec::new();
 
         // Step 1: Lex
@@ -63,11 +112,7 @@ impl IncanLanguageServer {
                 for error in &errors {
                     diagnostics.push(compile_error_to_diagnostic(error, source, uri));
                 }
-                #[cfg(incan_verif)]
-                crate::lsp::verif_gate::gate("publish_err", uri, Some(version)).await;
-                self.client
-                    .publish_diagnostics(uri.clone(), diagnostics, Some(version))
-                    .await;
+                self.finish_analysis(uri, version, ticket, None, diagnostics).await;
                 return;
             }
         };
@@ -80,11 +125,7 @@ impl IncanLanguageServer {
                 for error in &errors {
                     diagnostics.push(compile_error_to_diagnostic(error, source, uri));
                 }
-                #[cfg(incan_verif)]
-                crate::lsp::verif_gate::gate("publish_err", uri, Some(version)).await;
-                self.client
-                    .publish_diagnostics(uri.clone(), diagnostics, Some(version))
-                    .await;
+                self.finish_analysis(uri, version, ticket, None, diagnostics).await;
                 return;
             }
         };
@@ -115,28 +156,14 @@ impl IncanLanguageServer {
             }
         }
 
-        // Store AST for hover/goto
-        {
-            #[cfg(incan_verif)]
-            crate::lsp::verif_gate::gate("store", uri, Some(version)).await;
-            let mut docs = self.documents.write().await;
-            docs.insert(
-                uri.clone(),
-                DocumentState {
-                    source: source.to_string(),
-                    ast: Some(ast),
-                    version,
-                    const_types,
-                },
-            );
-        }
-
-        // Publish diagnostics (even if empty, to clear old ones)
-        #[cfg(incan_verif)]
-        crate::lsp::verif_gate::gate("publish", uri, Some(version)).await;
-        self.client
-            .publish_diagnostics(uri.clone(), diagnostics, Some(version))
-            .await;
+        // Store AST for hover/goto and publish diagnostics (even if empty, to clear old ones)
+        let state = DocumentState {
+            source: source.to_string(),
+            ast: Some(ast),
+            version,
+            const_types,
+        };
+        self.finish_analysis(uri, version, ticket, Some(state), diagnostics).await;
     }
 
     /// Collect and parse dependency modules referenced by imports in `ast`.
@@ -517,27 +544,33 @@ impl LanguageServer for IncanLanguageServer {
         let uri = params.text_document.uri;
         let source = params.text_document.text;
         let version = params.text_document.version;
+        let ticket = self.take_ticket(&uri);
 
-        self.analyze_document(&uri, &source, version).await;
+        self.analyze_document(&uri, &source, version, ticket).await;
     }
 
     async fn did_change(&self, params: DidChangeTextDocumentParams) {
         let uri = params.text_document.uri;
         let version = params.text_document.version;
+        let ticket = self.take_ticket(&uri);
 
         // We use FULL sync, so there's only one change with the full content
         if let Some(change) = params.content_changes.into_iter().next() {
-            self.analyze_document(&uri, &change.text, version).await;
+            self.analyze_document(&uri, &change.text, version, ticket).await;
         }
     }
 
     async fn did_close(&self, params: DidCloseTextDocumentParams) {
         let uri = params.text_document.uri;
+        let ticket = self.take_ticket(&uri);
 
-        // Remove document from cache
+        // Remove document from cache (unless the document has been reopened in the meantime)
         #[cfg(incan_verif)]
         crate::lsp::verif_gate::gate("close_lock", &uri, None).await;
         let mut docs = self.documents.write().await;
+        if !self.is_latest(&uri, ticket) {
+            return;
+        }
         docs.remove(&uri);
 
         // Clear diagnostics
